@@ -160,8 +160,22 @@ class Canon:
             if sgn is None:
                 w = self.witness(ov[0]) / self.witness(ov[1])
                 sgn = -1 if w < 0 else 1
+            if sgn == 0:
+                # sign not determined on this path: keep |e| as the atom sqrt(e^2)
+                inside = self.red(inside * ov[0] ** 2); den2 = ov[1]
+                ik = 'abs:' + str(inside)
+                if ik not in self.sqrtatoms:
+                    self.sqrtatoms[ik] = (self.g[i], R(1))
+                    self.G.append(self.g[i] ** 2 - inside); self.Gsrc.append(('sqrt', i))
+                    self.sqrt_defs.append((i, inside)); self.axioms.add('sqrt: s>=0, s^2=a')
+                if den2 == 1: return self.sqrtatoms[ik]
+                # |den| : denominators are proved non-zero; sign by witness with obligation
+                dv = (den2, R(1))
+                if self.witness(den2) < 0: dv = self.negv(dv)
+                self.signs.append((dv[0], dv[1], self.key(dv), 1))
+                return self.divv(self.sqrtatoms[ik], dv)
             if sgn < 0: ov = self.negv(ov)
-            self.signs.append((ov[0], ov[1], kk))
+            self.signs.append((ov[0], ov[1], kk, sgn))
         if inside == 1:
             self.axioms.add('sqrt(e^2)=|e|')
             return ov
@@ -275,7 +289,7 @@ class Canon:
                     if r[0].LC < 0: r = self.negv(r)
                 else:
                     if self.witness(r[0]) / self.witness(r[1]) < 0: r = self.negv(r)
-                    self.signs.append((r[0], r[1], self.key(r)))
+                    self.signs.append((r[0], r[1], self.key(r), 1))
                 self.atan[i] = (y, x, r)
             else:
                 self.atan[i] = None
